@@ -25,17 +25,24 @@ type stubOwner struct {
 	recv, free atomic.Int64
 	badPort    atomic.Int64
 	port       messaging.Port
+	onNotify   func(kind string) // optional (concurrent mode): called inside every notification, after counting
 }
 
 func (o *stubOwner) Name() string { return "Owner" }
 func (o *stubOwner) NotifyRecv(p messaging.Port) {
 	o.recv.Add(1)
+	if o.onNotify != nil {
+		defer o.onNotify("recv")
+	}
 	if p != o.port {
 		o.badPort.Add(1)
 	}
 }
 func (o *stubOwner) NotifyPortFree(p messaging.Port) {
 	o.free.Add(1)
+	if o.onNotify != nil {
+		defer o.onNotify("free")
+	}
 	if p != o.port {
 		o.badPort.Add(1)
 	}
@@ -47,14 +54,23 @@ type stubConn struct {
 	send, available atomic.Int64
 	badPort         atomic.Int64
 	port            messaging.Port
+	onNotify        func(kind string) // optional (concurrent mode), as in stubOwner
 }
 
 func (c *stubConn) Name() string            { return "Conn" }
 func (c *stubConn) PlugIn(p messaging.Port) { p.SetConnection(c) }
 func (c *stubConn) Unplug(messaging.Port)   {}
-func (c *stubConn) NotifySend()             { c.send.Add(1) }
+func (c *stubConn) NotifySend() {
+	c.send.Add(1)
+	if c.onNotify != nil {
+		c.onNotify("send")
+	}
+}
 func (c *stubConn) NotifyAvailable(p messaging.Port) {
 	c.available.Add(1)
+	if c.onNotify != nil {
+		defer c.onNotify("available")
+	}
 	if p != c.port {
 		c.badPort.Add(1)
 	}
